@@ -148,6 +148,10 @@ func (s *Sim) Run(fn *ssa.Function) []*Trace {
 	t := &Trace{Unsigned: map[string]bool{}, mem: map[string]string{}, memAt: map[string]int{},
 		memFields: map[string][]*types.Var{}, havocAt: map[*types.Var]int{}}
 	fr := &frame{fn: fn, fi: s.P.Info(fn), regs: map[ssa.Value]string{}}
+	// sentinel errors (package-level, assigned once by their initialiser) are never nil
+	for _, name := range s.P.SentinelNames() {
+		t.Facts = append(t.Facts, Rel{"global:" + name, "!=", "nil"})
+	}
 	var out []*Trace
 	s.walk(fr, fn.Blocks[0], nil, t, map[*ssa.BasicBlock]bool{}, func(tr *Trace, ret []string) {
 		tr.Ret = ret
